@@ -82,6 +82,9 @@ func ProfileForRun(prop string, run int) *Profile {
 		p.Name = "C11/tasks"
 		p.PTiny = 0.4
 		p.PJump = 0.15
+		// leases that outlive the task's own timeout: the sweep must still finish the task
+		p.Ttls = []int64{1000, 100000, 3_600_000, 3_600_000, 86_400_000}
+		p.W["ClaimTask"] = 30
 		return p
 	}
 	return ProfileFor(prop)
@@ -176,6 +179,8 @@ func ProfileFor(prop string) *Profile {
 		p.MaxSteps = 200
 		p.PRouted = 0.1
 		p.RichTags = true
+		p.Prologue = "search"
+		p.PDup = 0.05
 	case "C13":
 		p.PFront = 1
 		p.PHostile = 0.55
